@@ -23,9 +23,9 @@ COMPONENTS_REAL = ["geneticengine.representations.tree.utils.relabel_nodes", "ge
 COMPONENTS_STUB = ["RandomSource.randint/random_float (SimRandom)", "set iteration order (OrderedSimSet)"]
 ASSUMPTIONS = ["conventions of the library's documentation and relabel_test: a field-less node and a base value have distance 0, node count 0 and weighted size 0; "
                "lists are transparent (elements are children of the enclosing node); node: count 1+sum, distance max(1, children+1), weighted = sum + distance",
-               "tuple-typed fields are excluded from this check's grammars (the property speaks of lists)"]
+               "tuples are transparent containers like lists (they cannot carry labels themselves; the nodes inside them must)"]
 
-FEAT = features(list=4, annlist=4, union=1, tuple=0, interval=0, cls=8, refined=2, nested=1, standalone=1, flaky=0, dependent=1, base_in_list=1, concrete_start=1, nested_list=1, self_ref=1)
+FEAT = features(list=4, annlist=4, union=1, tuple=1, interval=0, cls=8, refined=2, nested=1, standalone=1, flaky=0, dependent=1, base_in_list=1, concrete_start=1, nested_list=1, self_ref=1)
 
 
 def budget(tier):
@@ -40,13 +40,13 @@ class RefMeta:
         self.memo = {}
 
     def terminal(self, x):
-        if isinstance(x, list):
-            return False
+        if isinstance(x, (list, tuple)):
+            return False  # containers are transparent: their elements are children of the enclosing node
         n = self.ref.cls_of(x)
         return n is None or not self.ref.cls[n]["fields"]
 
     def children(self, x):
-        if isinstance(x, list):
+        if isinstance(x, (list, tuple)):
             return list(x)
         n = self.ref.cls_of(x)
         return [getattr(x, fn) for fn, _ in self.ref.cls[n]["fields"]]
@@ -63,13 +63,14 @@ class RefMeta:
             idx = Counter([self.key(x)])
             for _, _, _, ki in kids:
                 idx.update(ki)
-            if isinstance(x, list):
+            cont = (list, tuple)
+            if isinstance(x, cont):
                 nodes = sum(k[0] for k in kids)
-                dist = max([k[1] + (0 if isinstance(c, list) else 1) for k, c in zip(kids, self.children(x))] or [0])
+                dist = max([k[1] + (0 if isinstance(c, cont) and not self.terminal(c) else 1) for k, c in zip(kids, self.children(x))] or [0])
                 weighted = sum(k[2] for k in kids)
             else:
                 nodes = 1 + sum(k[0] for k in kids)
-                dist = max([1] + [k[1] + (0 if isinstance(c, list) else 1) for k, c in zip(kids, self.children(x))])
+                dist = max([1] + [k[1] + (0 if isinstance(c, cont) and not self.terminal(c) else 1) for k, c in zip(kids, self.children(x))])
                 weighted = sum(k[2] for k in kids) + dist
             r = (nodes, dist, weighted, idx)
         self.memo[k] = (x, r)
@@ -93,9 +94,11 @@ def check_program(ctx, w, p, how):
         x = todo.pop()
         if rm.terminal(x) and w.ref.cls_of(x) is None:
             continue
+        if type(x) is tuple:
+            todo.extend(rm.children(x))  # a tuple cannot carry labels itself; the nodes inside it must
+            continue
         n_nodes += 1
-        has_list = isinstance(x, list) or any(isinstance(c, list) for c in rm.children(x))
-        where = "list-below" if _any_list(rm, x) else "plain"
+        where = "tuple-below" if _any_tuple(rm, x) else ("list-below" if _any_list(rm, x) else "plain")
         d = getattr(x, "__dict__", {})
         if not d.get("gengy_labeled", False):
             ctx.violate(f"C11/labels-absent/{w.rep_kind}", f"{how}: a {'list' if isinstance(x, list) else 'node'} of the program carries no metadata; program={render_value(p, w.ref)}")
@@ -127,6 +130,14 @@ def check_program(ctx, w, p, how):
     ctx.stat("nodes_checked", n_nodes)
     if n_nodes >= 2:
         ctx.nontrivial = True
+
+
+def _any_tuple(rm, x):
+    if type(x) is tuple:
+        return True
+    if rm.terminal(x):
+        return False
+    return any(_any_tuple(rm, c) for c in rm.children(x))
 
 
 def _any_list(rm, x):
